@@ -55,14 +55,17 @@ pub fn denom(d: u8) -> &'static str {
     match d {
         0 => "usei",
         1 => "uusd",
-        _ => "uxyz",
+        // a third denomination in the spelling of an IBC voucher: bank denoms are case sensitive
+        _ => "ibc/27394FB092D2ECCD56123C74F36E4C1F926001CEADA9CA97EA622B25F41E5EB2",
     }
 }
 pub fn denom_id(s: &str) -> u8 {
     match s {
         "usei" => 0,
         "uusd" => 1,
-        _ => 2,
+        "ibc/27394FB092D2ECCD56123C74F36E4C1F926001CEADA9CA97EA622B25F41E5EB2" => 2,
+        // any other spelling is another denomination
+        _ => 9,
     }
 }
 
